@@ -47,9 +47,19 @@ def random_schema(r, nested=0.0, ntab=None):
 BOUNDARY = [b"\0", b"\xff", b"\x7f", b"\x80", b"\x01"]
 
 
+# values whose shortest decimal form is hard for the float printer / parser (grisu3 gives up or sits on a rounding boundary, powers of
+# two with an asymmetric neighbourhood, the largest / smallest normal and denormal values, exponent forms with a sign)
+HARD_D = [1e23, 1e22, 9.5e21, 2.0**64, 2.0**-25, 2.0**-44, 2.0**85, 2.0**1002, 5e-324, 2.2250738585072014e-308, 2.225073858507201e-308, 1.7976931348623157e308,
+          9007199254740992.0, 9007199254740994.0, 0.1, 1.0 / 3.0, 1.2345678901234568e20, 1e17, 1.5e300, 4.35e18, 8.41e21, 3.5844466002796428e298, 1e-7, 123456.789e3]
+HARD_F = [1e23, 3.4028234663852886e38, 1.1754943508222875e-38, 1e-45, 16777216.0, 16777218.0, 0.1, 1e10, 2.0**64, 2.0**-25, 7.038531e-26, 9.9e-20, 8.589973e9]
+
+
 def rbytes(r, n):
     if n == 0: return b""
     c = r.random()
+    if n == 8 and c < 0.12: return struct.pack("<d", r.choice(HARD_D) * r.choice([1, 1, -1]))
+    if n == 8 and c < 0.18: return struct.pack("<d", r.choice([1, -1]) * r.uniform(1, 10) * 10.0 ** r.randint(17, 300))
+    if n == 4 and c < 0.12: return struct.pack("<f", r.choice(HARD_F) * r.choice([1, 1, -1]))
     if c < 0.15: return bytes([r.choice([0, 0xff, 0x7f, 0x80])]) * n
     if c < 0.25: return b"\0" * (n - 1) + bytes([r.choice([0x80, 0x7f, 1])])
     return bytes(r.randrange(256) for _ in range(n))
